@@ -35,7 +35,6 @@ CHECKS = [
 ]
 
 NOT_APPLICABLE = [
-    {"property_id": "C10", "reason": "two-pass layout of whole source programs goes through the same text parser (lark) and through bincopy; program text cannot be made symbolic without enumerating it; see DESIGN.md 9.7"},
     {"property_id": "C16", "reason": "snapshot save/load crosses zipfile/json/file I/O (Python) and a feature whose zip dependency is absent (Rust); not encodable, see DESIGN.md C16"},
 ]
 _PENDING = "check not built yet in this round (work in progress; see DESIGN.md section 6 for the order of work)"
@@ -139,6 +138,14 @@ CHECKS.append({
     "id": "C09", "engine": "pysym", "level": "translation_validation", "design_ref": "DESIGN.md section 9.8 / C09",
     "technique": "symbolic round trip bytes -> real decode/render -> assembler source with magic numerals standing for z3 terms -> real lark parser + AsmTransformer + two-pass Assembler -> emitted bytes as terms -> real decode; z3 decides text / length / IL equality and the second-round fixpoint for all operand values of each (prefix, opcode, length) class",
     "level_text": "Per encoding class the operand bytes are z3 variables. The real decoder renders the instruction; its text is turned into assembler source in which every number that is a term is written as a magic hexadecimal numeral (the text stays concrete, so the real grammar and tree transformer run unchanged; the rebound int() of the instrumented asm/sc_asm modules maps the numeral back to its term). The real Assembler.assemble emits bytes that are terms over the original operand bytes; z3 decides for all operand values that assembly succeeds, that the decoder consumes exactly the emitted bytes, that they render to the same text and (when the length is unchanged) lift to the same IL, and that a second disassemble/assemble round reproduces them. Bounded: one instruction per source text (control-flow opcodes also behind an .ORG on a high page), quick = no prefix + 4 PRE bytes, thorough = all 15; at most 0/1 named-register operand bytes per multi-byte operand field. The many assembler/decoder disagreements of the unchanged tree are listed key by key as known findings F24-F28.",
+    "level_note": _PY_NOTE + " bincopy.BinFile is replaced by a recorder of (address, bytes) chunks.",
+})
+NOT_APPLICABLE[:] = [n for n in NOT_APPLICABLE if n["property_id"] not in {c["id"] for c in CHECKS}]
+RUNNERS["C10"] = ("layout_check", "main", ())
+CHECKS.append({
+    "id": "C10", "engine": "pysym", "level": "translation_validation", "design_ref": "DESIGN.md section 9.8 / C10",
+    "technique": "symbolic execution of the real parser + two-pass Assembler on program skeletons whose numerals (.ORG targets, immediates, data values) are magic numerals standing for z3 terms; z3 decides pass-1 size == pass-2 bytes, placement, label values, page-local reference acceptance, equality with the instruction assembled alone, and run-to-run equality for all numeral values",
+    "level_text": "For each program skeleton (2-6 statements: instructions with and without label operands, forward and backward references, .ORG, SECTION code/data, defb/defw/defl/defs/defm, label-only lines) every numeral is a z3 variable. The real Assembler.assemble runs on the text (instrumented from outside to record per-statement pass-1 sizes, pass-2 bytes and emitted chunks); z3 decides for all numeral values - hence all placements relative to 64 KiB page edges - that each statement's pass-1 size equals its emitted length, that chunks land at section base/.ORG plus the preceding sizes, that the symbol table holds those addresses, that each label reference encodes its definition (16/20/24 bits), that a page-local JP/JPZ/CALL is rejected exactly when the definition is on another page, that each instruction equals what assembling it alone at that address with the symbol replaced by its value gives, and that a second run on the same and on a fresh Assembler emits the same chunks with the module-level reverse-opcode cache unchanged. Bounded by the skeleton list (structure enumerated, values symbolic).",
     "level_note": _PY_NOTE + " bincopy.BinFile is replaced by a recorder of (address, bytes) chunks.",
 })
 NOT_APPLICABLE[:] = [n for n in NOT_APPLICABLE if n["property_id"] not in {c["id"] for c in CHECKS}]
